@@ -238,10 +238,10 @@ def run_c26_part(chk):
     released = sum(1 for d in deco if any(e["a"] == "loop_exit" and e.get("result") == "IdleReleasedEvent" for e in d["events"]))
     chk.add(dbos_lock_histories_in_graph=n_all, dbos_lock_histories=len(lock_traces), dbos_lock_histories_conforming=matched,
             dbos_deco_runs=len(deco), dbos_deco_runs_conforming=dmatched, dbos_deco_runs_with_release=released,
-            dbos_failing_by_key=per_key, evaluations=len(lock_traces) + len(deco),
-            distinct_nontrivial=released + sum(1 for tr in lock_traces
-                                               if any(s["cmd"][0] == "try_begin_resume" and s["res"] != "none" for s in tr)),
-            traces_validated_against_impl=matched + dmatched)
+            dbos_failing_by_key=per_key, dbos_evaluations=len(lock_traces) + len(deco),
+            dbos_distinct_nontrivial=released + sum(1 for tr in lock_traces
+                                                    if any(s["cmd"][0] == "try_begin_resume" and s["res"] != "none" for s in tr)),
+            dbos_traces_validated_against_impl=matched + dmatched)
     chk.sample({"dbos_lock_history": [s["cmd"] + [s["res"], s["row"]] for s in lock_traces[0]]})
     chk.assumptions += [a for a in ASSUMPTIONS if a not in chk.assumptions]
 
@@ -325,7 +325,7 @@ def run_c36_part(chk):
             chk.note("dbos: conformance drift (deco36) %s: event %d %s is not a step of DbosIdleRelease.tla" % (d["label"], k + 1, d["events"][k]))
     longer = sum(1 for r in runs if r["gap"] > r["idle_timeout"] * 10)
     chk.add(dbos_idle_runs=len(runs), dbos_idle_runs_conforming=dmatched, dbos_idle_runs_longer_than_timeout=longer,
-            dbos_failing_by_key=per_key, evaluations=len(runs), distinct_nontrivial=longer,
-            traces_validated_against_impl=dmatched)
+            dbos_failing_by_key=per_key, dbos_evaluations=len(runs), dbos_distinct_nontrivial=longer,
+            dbos_traces_validated_against_impl=dmatched)
     chk.sample({"dbos_idle_case": runs[2]["label"], "events": [e["a"] for e in runs[2]["events"]]})
     chk.assumptions += [a for a in ASSUMPTIONS if a not in chk.assumptions]
